@@ -397,6 +397,22 @@ func (in *inliner) run() (int, []string) {
 	in.edits = map[*ast.File][]edit{}
 	in.addImp = map[*ast.File]map[string]string{}
 	var notes []string
+	// methods that may be what makes a type implement an interface of this package are left alone
+	// (expanding them at their static call sites and dropping the declaration would break the
+	// implementation relation)
+	ifaceMethods := map[string]bool{}
+	for _, f := range in.pkg.Syntax {
+		ast.Inspect(f, func(n ast.Node) bool {
+			if it, ok := n.(*ast.InterfaceType); ok && it.Methods != nil {
+				for _, m := range it.Methods.List {
+					for _, nm := range m.Names {
+						ifaceMethods[nm.Name] = true
+					}
+				}
+			}
+			return true
+		})
+	}
 	for _, f := range in.pkg.Syntax {
 		for _, d := range f.Decls {
 			fd, ok := d.(*ast.FuncDecl)
@@ -405,6 +421,9 @@ func (in *inliner) run() (int, []string) {
 			}
 			in.declFile[fd] = f
 			if in.baseline[funcIdent(in.pkg.PkgPath, fd)] {
+				continue
+			}
+			if fd.Recv != nil && ifaceMethods[fd.Name.Name] {
 				continue
 			}
 			if obj, ok := in.info.Defs[fd.Name].(*types.Func); ok && in.inlinable(fd, obj) {
@@ -423,6 +442,16 @@ func (in *inliner) run() (int, []string) {
 				continue
 			}
 			n += in.stmts(f, fd, fd.Body.List, false)
+		}
+	}
+	if n == 0 && os.Getenv("VERIF_DEBUG_INLINE") != "" {
+		for _, f := range in.pkg.Syntax {
+			ast.Inspect(f, func(nd ast.Node) bool {
+				if ce, ok := nd.(*ast.CallExpr); ok && in.isNew(ce) {
+					fmt.Fprintf(os.Stderr, "inline: call of new helper %s left at %s\n", in.calleeOf(ce).Name(), in.fset.Position(ce.Pos()))
+				}
+				return true
+			})
 		}
 	}
 	// helpers that are no longer referenced anywhere are dropped (they have no caller context left)
@@ -472,6 +501,28 @@ func (in *inliner) run() (int, []string) {
 		}
 		if named := in.addNamedImp[f]; len(named) > 0 {
 			res = addNamedImports(res, named)
+		}
+		// an import that only a dropped / moved-out helper used would now be "imported and not used":
+		// it is kept as a blank import
+		for _, is := range f.Imports {
+			var pn *types.PkgName
+			if is.Name != nil {
+				if is.Name.Name == "_" || is.Name.Name == "." {
+					continue
+				}
+				pn, _ = in.info.Defs[is.Name].(*types.PkgName)
+			} else {
+				pn, _ = in.info.Implicits[is].(*types.PkgName)
+			}
+			if pn == nil {
+				continue
+			}
+			re := regexp.MustCompile(`(^|[^A-Za-z0-9_."/])` + regexp.QuoteMeta(pn.Name()) + `\.`)
+			if re.Match(res) {
+				continue
+			}
+			orig := in.text(f, is.Pos(), is.End())
+			res = bytes.Replace(res, []byte(orig), []byte("_ "+is.Path.Value), 1)
 		}
 		var aliasNames []string
 		for nm, af := range in.addAlias {
@@ -653,7 +704,32 @@ func (in *inliner) firstCall(e ast.Node) *ast.CallExpr {
 			walk(x.X)
 			if !stop {
 				if x.Op == token.LAND || x.Op == token.LOR {
-					stop = true // right operand is conditional
+					// the right operand is evaluated conditionally: a call inside it cannot be hoisted (and ends
+					// the walk); without calls it is just part of the value
+					hasCall := false
+					ast.Inspect(x.Y, func(c ast.Node) bool {
+						if ce, ok := c.(*ast.CallExpr); ok {
+							if tv, ok := in.info.Types[ce.Fun]; ok && tv.IsType() {
+								return true
+							}
+							if id, ok := ce.Fun.(*ast.Ident); ok {
+								if _, isB := in.info.Uses[id].(*types.Builtin); isB {
+									return true
+								}
+							}
+							hasCall = true
+						}
+						if _, isLit := c.(*ast.FuncLit); isLit {
+							hasCall = true
+						}
+						if u, ok := c.(*ast.UnaryExpr); ok && u.Op == token.ARROW {
+							hasCall = true
+						}
+						return true
+					})
+					if hasCall {
+						stop = true
+					}
 					return
 				}
 				walk(x.Y)
